@@ -60,6 +60,7 @@ FLOORS = {'completed': 0.3, 'prog:phi:loop': 50, 'prog:phi:branch': 50,
 N_INPUTS = 5
 MAXTASKS = 6          # recycle workers: fpy2's per-process caches grow with every loaded module
 CHECKED = ('TypeInfer', 'ArraySizeInfer', 'ValueClassInfer', 'PartialEval', 'DefineUse', 'Alias')
+UNCHECKED = ('ContextUse', 'Purity', 'LiveVars', 'Escape')
 NT_ROUTES = ('indexing', 'slicing', 'construction', 'tuple-packing', 'iteration', 'comprehension', 'tuple-unpack', 'element-store',
              'projection', 'if-expr')
 
@@ -163,12 +164,31 @@ def check_function(res: Result, src, sh, fname, fn, inputs, origin, rows=True):
     old = signal.signal(signal.SIGALRM, _alarm)
     signal.alarm(60)
     try:
-        facts = Facts(fn.ast)
+        facts = Facts(fn.ast, only=CHECKED)
     except _Timeout:          # an analysis that does not terminate: visible class, the function is skipped
         res.cls('analysis-crash:some-analysis:no-termination-within-60s')
         res.skip('analysis-crash:some-analysis:no-termination-within-60s')
         res.sample({'analysis_crash': 'no-termination-within-60s', 'func': fname, 'src': src})
         return
+    finally:
+        signal.alarm(0)
+        signal.signal(signal.SIGALRM, old)
+    # analyses whose facts the property does not list run for crash detection only; one that hangs must not
+    # hide what the checked analyses report
+    old = signal.signal(signal.SIGALRM, _alarm)
+    signal.alarm(30)
+    try:
+        extra = Facts(fn.ast, only=UNCHECKED)
+        seen = {facts.errors.get(n): n for n, st in facts.status.items() if st.startswith('crash:')}
+        for n, st in extra.status.items():
+            if st.startswith('crash:') and extra.errors.get(n) in seen:
+                st = f'blocked:{seen[extra.errors.get(n)]}'
+            facts.status[n] = st
+        facts.errors.update(extra.errors)
+    except _Timeout:
+        res.cls('analysis-crash:unchecked-analysis:no-termination-within-30s')
+        res.skip('analysis-crash:unchecked-analysis:no-termination-within-30s')
+        res.sample({'analysis_crash': 'unchecked analysis: no-termination-within-30s', 'func': fname, 'src': src})
     finally:
         signal.alarm(0)
         signal.signal(signal.SIGALRM, old)
